@@ -46,9 +46,9 @@ def pre_run(kind: int, per: int, steps: List[Tuple[int, int]]) -> bool:
 
 @harness(
     pre=pre_run,
-    quick=dict(N=3, A=2, timeout=150, reach_timeout=60),
+    quick=dict(N=3, A=2, timeout=200, reach_timeout=60),
     thorough=dict(N=4, A=4, timeout=1200, reach_timeout=90),
-    nshards=dict(quick=8, thorough=32),
+    nshards=dict(quick=16, thorough=32),
     reach=["skipped_periods", "overrun_no_overlap", "stop_while_in_flight", "raising_callback_continues"],
     units=["ioloop.PeriodicCallback.start", "ioloop.PeriodicCallback._run",
            "ioloop.PeriodicCallback._schedule_next", "ioloop.PeriodicCallback._update_next",
@@ -195,7 +195,7 @@ def _kernel_fp_c(tier, seed):
 
 EXTRAS = {
     "kernel_real": dict(fn=_kernel_real, wall=300),
-    "kernel_fp_a": dict(fn=_kernel_fp_a, wall=900),
-    "kernel_fp_b": dict(fn=_kernel_fp_b, wall=900),
-    "kernel_fp_c": dict(fn=_kernel_fp_c, wall=900),
+    "kernel_fp_a": dict(fn=_kernel_fp_a, wall=3000),
+    "kernel_fp_b": dict(fn=_kernel_fp_b, wall=3000),
+    "kernel_fp_c": dict(fn=_kernel_fp_c, wall=3000),
 }
